@@ -11,6 +11,7 @@ import (
 	"servitor/gemtext"
 	"servitor/hypertext"
 	"servitor/markdown"
+	"servitor/object"
 	"servitor/plaintext"
 	"servitor/verifkit/ev"
 	"servitor/verifkit/gen"
@@ -149,6 +150,41 @@ func one(c *ev.Ctx, r *rand.Rand, sample bool) {
 			return
 		}
 		c.Count("renders_checked", 1)
+	}
+	// the way items get their bodies: object.GetMarkup picks the renderer by media type. The same text under each of the four
+	// media types, one after the other in this process, must render like a fresh instance of that renderer on that text -
+	// what was parsed before (same text, other type) must not matter
+	if r.Intn(3) == 0 {
+		types := []string{"text/html", "text/plain", "text/markdown", "text/gemini"}
+		r.Shuffle(len(types), func(i, j int) { types[i], types[j] = types[j], types[i] })
+		w := widths[0]
+		for _, mt := range types[:2+r.Intn(3)] {
+			obj := object.Object{"content": doc.Text, "mediaType": mt}
+			var mk object.Markup
+			var merr, cerr error
+			var clean, got, want string
+			if c.Guard("render:getmarkup:", d, func() {
+				mk, _, merr = obj.GetMarkup("content", "mediaType")
+				clean, cerr = obj.GetString("content")
+			}) {
+				return
+			}
+			if merr != nil || cerr != nil || mk == nil {
+				continue
+			}
+			ref, rerr := build(gen.Doc{Markup: map[string]string{"text/html": "html", "text/plain": "plain", "text/markdown": "markdown", "text/gemini": "gemini"}[mt], Text: clean})
+			if rerr != nil {
+				continue
+			}
+			if c.Guard("render:getmarkup:", d, func() { got, want = mk.Render(w), ref.Render(w) }) {
+				return
+			}
+			if got != want {
+				fail("getmarkup-depends-on-earlier-documents", "the text as %s through object.GetMarkup renders differently at width %d from a fresh %s renderer on the same text (%d vs %d bytes)", mt, w, mt, len(got), len(want))
+				return
+			}
+			c.Count("getmarkup_renders_checked", 1)
+		}
 	}
 	c.Count("markup:"+doc.Markup, 1)
 	c.Nontrivial(fmt.Sprintf("%s|%v|%s", doc.Markup, widths, doc.Text))
